@@ -38,6 +38,7 @@ class Exec:
         self.max_paths = max_paths
         self.decls, self.side, self.n = [], [], 0
         self.paths, self.cut = [], 0
+        self.iter_src = {}          # iterator-instance opaque id -> the collection value it walks
         self.proj = {}              # (base opaque id, projection text) -> opaque id: the same field read twice is the same value
         self.lens = {}              # opaque id -> SMT Int term of its length (Vec / slice / str)
         self.debug_names = {}
@@ -330,7 +331,10 @@ class Exec:
         m = re.match(r"^([\w:<>]+) as .*\(PointerCoercion\(ReifyFnPointer.*\)$", rv)
         if m:
             return ("fn", strip_trailing_generics(m.group(1)).split("::")[-1])
-        m = re.match(r"^(?:move|copy) .* as \w+ \(\w+\)$", rv)
+        m = re.match(r"^((?:move|copy) \S+) as .* \(PointerCoercion\((?:Unsize|MutToConstPointer)", rv)
+        if m:
+            return self.operand(env, m.group(1))            # unsizing a reference does not change what it denotes
+        m = re.match(r"^(?:move|copy) .* as .* \(\w+(?:\(.*\))?\)$", rv)
         if m:
             return self.havoc(self.locs.get(dst))
         m = re.match(r"^([A-Z]\w*)$", rv)
@@ -599,14 +603,26 @@ def m_iter_next(ex, argv):
     if not argv or argv[0][0] != "opaque":
         return m_option(ex, argv)
     it = argv[0]
+    src = ex.iter_src.get(it[1], it)
     k = sum(1 for e in ex.cur_events if e[0] == "call" and e[1] == "next" and e[2] and e[2][0] == it)
-    n = ex.len_of(it)
-    elem = ex.proj_of(it, f"[{k}]")
+    n = ex.len_of(src)
+    elem = ex.proj_of(src, f"[{k}]")
     if "Enumerate" in (ex.cur_callee or ""):
         elem = ("tuple", [("int", str(k)), elem])
     tag = ex.fresh("Int", "nx")
     ex.side.append(f"(= {tag} (ite (< {k} {n}) 1 0))")
     return ("enum", "Option", tag, {"Some": elem})
+
+
+def m_new_iter(ex, argv):
+    """`iter()` / `into_iter()`: a fresh iterator instance over the collection (a second loop over the same
+    collection starts again at element 0); `into_iter()` of an iterator is the iterator itself"""
+    src = argv[0] if argv else ex.opq()
+    if src[0] == "opaque" and src[1] in ex.iter_src:
+        return src
+    it = ex.opq()
+    ex.iter_src[it[1]] = src
+    return it
 
 
 def m_eq(ex, argv):
